@@ -22,6 +22,12 @@ impl CliRun {
     pub fn panicked(&self) -> Option<String> {
         self.stderr.lines().find(|l| l.contains("panicked at")).map(|l| l.to_string())
     }
+    /// the panic message (the line after "panicked at file:line:col:")
+    pub fn panic_message(&self) -> Option<String> {
+        let mut it = self.stderr.lines().skip_while(|l| !l.contains("panicked at"));
+        it.next()?;
+        it.next().map(|l| l.to_string())
+    }
     /// site of the panic ("crates/..../file.rs") if printed
     pub fn panic_site(&self) -> Option<String> {
         let l = self.panicked()?;
